@@ -383,7 +383,7 @@ int main(void)
 				rtr_bgpsec_free(d);
 			} else {
 				size_t sz = req_stream_size(d, ty);
-				struct stream *s = init_stream((uint16_t)sz);
+				struct stream *s = init_stream(sz);
 				int rc = align_byte_sequence(d, s, ty);
 
 				printf("%s %zu %u ", rcname(rc), sz, (unsigned int)s->w_head);
